@@ -167,6 +167,23 @@ theorem counter_g :
     walk (compileSets c ps) (compileTable c ps "node1") f = .drop ∧ k8sAllowsOn "node1" c ps f = true := by
   decide
 
+/-- (h) EVENT PATH (corpus/C16/relabel.ops): pod b (another node, app=b) is an allowed peer of policy x; it is relabelled
+    app=c while running.  UpdatePod calls no SyncPodChains for a pod of another node and SyncPodIPInIPSet only ADDS
+    the address to the sets the NEW labels match (none): the kernel state after the event is the state before it, b is
+    still a member of GLX-sip-0-x and is still admitted, although the API semantics of the new cluster (and a
+    from-scratch compile of it) refuse it.  Repaired only by the next periodic full sync. -/
+theorem counter_relabel_stale :
+    let ps := [polX [.ingress] [⟨[.pods (lbl [("app", "b")])], [⟨.tcp, some 80⟩]⟩] []]
+    let cOld : Cluster := ⟨nss2, [podA, podB "node2" "b"]⟩
+    let cNew : Cluster := ⟨nss2, [podA, podB "node2" "c"]⟩
+    let k := (fullSync ⟨[], [(.forward, []), (.input, []), (.output, [])]⟩ cOld ps "node1").1
+    let f : Flow := ⟨.forward, .tcp, ip4 10 0 1 2, ip4 10 0 1 1, 80⟩
+    walk k.sets k.tbl f = .accept ∧ k8sAllowsOn "node1" cNew ps f = false ∧
+    walk (compileSets cNew ps) (compileTable cNew ps "node1") f = .drop ∧
+    (fullSync k cNew ps "node1").2 = [] ∧
+    walk (fullSync k cNew ps "node1").1.sets (fullSync k cNew ps "node1").1.tbl f = .drop := by
+  decide
+
 /-- every hypothesis class of the fragment is needed: each witness above is outside `inFragment` -/
 theorem counters_outside_fragment :
     inFragment ⟨nss2, [podA, podC]⟩ [polX [.ingress] [⟨[.pods (lbl [("app", "b")])], []⟩] []] "node1"
